@@ -59,6 +59,10 @@ func checkC04(c *Ctx) {
 	emptyBehaviorPairing(c, "R04k")
 	r.Rule("R04l", "bytes decoded by a child's own UnmarshalJSON are not decoded again by the final protojson decode (shared with C05/R05k)", 2)
 	customFormReachesProtojson(c, "R04l")
+	r.Rule("R04m", "enum_value tables: the decoder table reads every string the encoder table writes (partially annotated enums, both plugins)", 6)
+	enumTables(c, "R04m")
+	r.Rule("R04n", "timestamp_format decoders keep sub-second precision", 2)
+	timestampDecoderPrecision(c, "R04n")
 
 	type siteAgg struct {
 		pos  string
